@@ -21,3 +21,4 @@ Definition k_flow_validate_tag : pfun :=
     ] [];
     SReturn (PTuple [(PSlice (PName "view") PNone (PName "data_length")); (PBin "+" (PName "tag_length") (PName "data_length"))])
   ] |}.
+Definition k_flow_validate_tag_defaults : list (string * pexp) := [("header", PNone); ("hint", PNone)].
